@@ -183,6 +183,9 @@ def check(ctx):
             bad = 'add_datapoint must be given (label, sub-label, datapoint)'
         else:
             a0, a1, a2 = (subst(b_[k], defs_) for k in names_)
+            if s.cls is not None:
+                from ..norm import inline_accessors
+                a2 = inline_accessors(P, s.cls, a2)        # a payload built by a small helper (`self._state_record()`) is the tuple it returns
             lbl = a0.value if isinstance(a0, ast.Constant) else ast.unparse(a0)
             fparams = [a_.arg for a_ in s.func.args.args] if s.func is not None else []
             if isinstance(a0, ast.Name) and a0.id in fparams and s.cls is not None:
